@@ -1,5 +1,5 @@
 use crate::{
-    specification::{A2lFile, A2lObject, A2lObjectName},
+    specification::{A2lFile, A2lObject, A2lObjectName, Module},
     ItemList,
 };
 use std::cmp::Ordering;
@@ -35,6 +35,10 @@ pub(crate) fn sort_new_items(a2l_file: &mut A2lFile) {
      * Then the max uid of each type of item is found, and new items of that type are assigned uid = max_uid + 1
      */
     for module in &mut a2l_file.project.module {
+        // Doubling the uids on every call would overflow after about 30 calls. To prevent this, the existing
+        // uids are first replaced by their rank 1..=n, which does not change the ordering.
+        compact_uids(module);
+
         let next_uid = sort_optional_item(&mut module.a2ml, 1);
         let next_uid = sort_optional_item(&mut module.mod_common, next_uid);
         sort_optional_item(&mut module.mod_par, next_uid);
@@ -135,6 +139,74 @@ where
             layout.start_offset = 2;
             layout.end_offset = 1;
         }
+    }
+}
+
+// replace all nonzero uids of the items inside of the module by their rank, keeping the order
+fn compact_uids(module: &mut Module) {
+    let mut uids = Vec::new();
+    visit_module_uids(module, &mut |uid| {
+        if *uid != 0 {
+            uids.push(*uid);
+        }
+    });
+    uids.sort_unstable();
+    uids.dedup();
+    visit_module_uids(module, &mut |uid| {
+        if let Ok(rank) = uids.binary_search(uid) {
+            *uid = rank as u32 + 1;
+        }
+    });
+}
+
+// call func for the uid of each item inside of the module that is handled by sort_new_items
+fn visit_module_uids(module: &mut Module, func: &mut dyn FnMut(&mut u32)) {
+    fn visit_opt<T: A2lObject<U>, U>(item: &mut Option<T>, func: &mut dyn FnMut(&mut u32)) {
+        if let Some(a2lobject) = item {
+            func(&mut a2lobject.get_layout_mut().uid);
+        }
+    }
+    fn visit_list<T, U>(list: &mut ItemList<T>, func: &mut dyn FnMut(&mut u32))
+    where
+        T: A2lObject<U> + A2lObjectName,
+    {
+        for a2lobject in list {
+            func(&mut a2lobject.get_layout_mut().uid);
+        }
+    }
+
+    visit_opt(&mut module.a2ml, func);
+    visit_opt(&mut module.mod_common, func);
+    visit_opt(&mut module.mod_par, func);
+    visit_opt(&mut module.variant_coding, func);
+    visit_list(&mut module.axis_pts, func);
+    visit_list(&mut module.blob, func);
+    visit_list(&mut module.characteristic, func);
+    visit_list(&mut module.compu_method, func);
+    visit_list(&mut module.compu_tab, func);
+    visit_list(&mut module.compu_vtab, func);
+    visit_list(&mut module.compu_vtab_range, func);
+    visit_list(&mut module.frame, func);
+    visit_list(&mut module.function, func);
+    visit_list(&mut module.group, func);
+    visit_list(&mut module.instance, func);
+    visit_list(&mut module.measurement, func);
+    visit_list(&mut module.record_layout, func);
+    visit_list(&mut module.transformer, func);
+    visit_list(&mut module.typedef_axis, func);
+    visit_list(&mut module.typedef_blob, func);
+    visit_list(&mut module.typedef_characteristic, func);
+    visit_list(&mut module.typedef_measurement, func);
+    visit_list(&mut module.typedef_structure, func);
+    visit_list(&mut module.unit, func);
+    for comment in &mut module.a2lcomment {
+        func(&mut comment.uid);
+    }
+    for if_data in &mut module.if_data {
+        func(&mut if_data.get_layout_mut().uid);
+    }
+    for user_rights in &mut module.user_rights {
+        func(&mut user_rights.get_layout_mut().uid);
     }
 }
 
